@@ -265,6 +265,8 @@ func evalPathStep(step jparse.Node, data reflect.Value, env *environment, lastSt
 func evalOverArray(node jparse.Node, data reflect.Value, env *environment) ([]reflect.Value, error) {
 	var results []reflect.Value
 
+	data = jtypes.Resolve(data)
+
 	for i, N := 0, data.Len(); i < N; i++ {
 
 		res, err := eval(node, data.Index(i), env)
